@@ -6,7 +6,7 @@ package ddptypes
 
 /*@
 // type graphs are built once by the parser and never rewritten
-immutable ddptypes.TypeAlias ddptypes.TypeDef ddptypes.InstantiatedGenericType
+immutable ddptypes.TypeAlias ddptypes.TypeDef ddptypes.InstantiatedGenericType ddptypes.StructType.instantiatedWith
 
 // norm(t): t with every alias (and resolved generic) replaced by its target, also inside list types.
 // The four axioms are the recursive definition of norm by cases on the dynamic type.
@@ -153,4 +153,30 @@ lemma L_def_identity [C14]: forall d1, d2 *TypeDef :: Equal(box(d1), box(d2)) <=
 // a type definition over a number is not itself numeric (it converts only explicitly)
 lemma L_def_not_numeric [C14]: forall d *TypeDef :: !IsNumeric(box(d))
 lemma L_list_equal [C14]: forall a, b Type :: Equal(box(mk[ListType](a)), box(mk[ListType](b))) <==> Equal(a, b)
+
+// ================= C15: generic type parameters and instantiations =================
+// a type parameter that is already bound keeps its binding: binding it to a second, different argument type can only
+// be detected (and rejected) by the caller comparing the returned binding with the argument
+func UnifyGenericType$1 [C15]
+  returns r
+  requires genericTypes != nil
+  ensures old(mapHas(genericTypes, generic.Name)) ==> r == old(genericTypes[generic.Name])
+  ensures !old(mapHas(genericTypes, generic.Name)) ==> r == instantiatedType
+  ensures mapHas(genericTypes, generic.Name) && genericTypes[generic.Name] == r
+  // no other binding changes
+  ensures forall n string :: n != generic.Name ==>
+            mapHas(genericTypes, n) == old(mapHas(genericTypes, n)) && genericTypes[n] == old(genericTypes[n])
+
+// instantiations are cached per generic Kombination: the first cached instantiation whose type arguments are pairwise
+// equivalent to the requested ones is returned (equal arguments => one and the same type object) ...
+func GetInstantiatedStructType [C15]
+  requires s != nil
+  ensures (exists k int :: 0 <= k && k < old(len(s.Instantiations)) && result == old(s.Instantiations[k])) ==>
+            slices.eqAllBy(result.instantiatedWith, genericTypes, Equal)
+  // ... and none is returned whose arguments differ
+  ensures forall k int :: 0 <= k && k < old(len(s.Instantiations)) && slices.eqAllBy(old(s.Instantiations[k]).instantiatedWith, genericTypes, Equal) ==>
+            (exists j int :: 0 <= j && j <= k && result == old(s.Instantiations[j]))
+  loop 0 invariant forall k int :: 0 <= k && k <= rangeindex0 && k < len(s.Instantiations) ==>
+                     !slices.eqAllBy(s.Instantiations[k].instantiatedWith, genericTypes, Equal)
+  loop 0 invariant s.Instantiations == old(s.Instantiations)
 @*/
